@@ -10,7 +10,8 @@ Open Scope Z_scope.
 
 Inductive kind := KProgram | KBlank (trailing : bool) | KMark | KBlock | KEndBlock | KEndBlocks | KWatch | KAlarm
                 | KWait (dur : Z)          (* duration in tenths of a second *)
-                | KNoop (count : nat) | KCmd | KSimple | KError.
+                | KNoop (count : nat) | KCmd | KSimple | KError
+                | KInjected.                  (* the root of an injected snippet: not part of the method tree *)
 Record node := { n_kind : kind; n_parent : option nat; n_children : list nat; n_thr : bool }.
 Definition program := list node.
 
@@ -32,7 +33,8 @@ Inductive frame :=
 | FBlkA (n : nat) | FBlkWait (n : nat) | FBlkB (n : nat) | FBlkC (n : nat) | FBlkEnd (n : nat)
 | FWait (n : nat) (stop : Z) | FNoop (n i : nat)
 | FWatchAwait (n : nat) | FWatchInv (n : nat) | FWatchBody (n : nat)
-| FAlarmAwait (n : nat) | FAlarmInv (n : nat) | FAlarmBody (n : nat) | FAlarmPost (n : nat).
+| FAlarmAwait (n : nat) | FAlarmInv (n : nat) | FAlarmBody (n : nat) | FAlarmPost (n : nat)
+| FInjAfter (n : nat).
 Definition stack := list frame.
 
 Record env := { e_time : Z; e_thr_wait : list nat; e_cond_true : list nat; e_cond_err : list nat }.
@@ -108,9 +110,12 @@ Section Prog.
   Definition is_block (n : nat) : bool := match n_kind (nd n) with KBlock => true | _ => false end.
   Definition in_ended_block (s : S) (n : nat) : bool :=
     existsb (fun a => is_block a && block_ended (st s a)) (ancestors n).
-  (* locked blocks, innermost (largest pre-order index) first *)
+  (* the node belongs to the method tree (its chain of parents ends in the program root), not to an injected snippet *)
+  Definition in_method (n : nat) : bool :=
+    match rev (ancestors n) with r :: _ => Nat.eqb r 0 | [] => Nat.eqb n 0 end.
+  (* ProgramNode.get_locked_blocks: the locked blocks OF THE METHOD TREE, innermost (largest pre-order index) first *)
   Definition locked_blocks (s : S) : list nat :=
-    rev (filter (fun n => is_block n && lock_acquired (st s n)) (seq 0 (length p))).
+    rev (filter (fun n => is_block n && in_method n && lock_acquired (st s n)) (seq 0 (length p))).
   (* the blocks End block / End blocks work on: locked and not yet ended *)
   Definition active_blocks (s : S) : list nat := filter (fun b => negb (block_ended (st s b))) (locked_blocks s).
   Fixpoint descendants_fuel (fuel : nat) (n : nat) : list nat :=
@@ -127,7 +132,7 @@ Section Prog.
                  activated := activated x; interrupt_registered := interrupt_registered x; run_count := run_count x;
                  wait_start := wait_start x; cancelled := false; forced := false |} in
     match k with
-    | KProgram | KWatch | KAlarm | KBlock =>
+    | KProgram | KWatch | KAlarm | KBlock | KInjected =>
         let x2 := set_kids x1 0 false in
         let x3 := set_cond x2 (match k with KWatch | KAlarm => false | _ => activated x2 end) false (run_count x2) in
         match k with KBlock => set_block x3 false false | _ => x3 end
@@ -259,6 +264,7 @@ Section Prog.
     | KCmd => Yield REnd (FRet :: k) (add_sched s)
     | KSimple => Yield REnd (FRet :: k) (mark_completed (complete s n) n)
     | KError => Raise k (set_ns s n (set_failed (st s n) true))
+    | KInjected => Go (FKidsEntry n :: FInjAfter n :: k) s          (* visit_InjectedNode: the children, then completed *)
     | KWatch =>
         if negb (interrupt_registered (st s n)) then Yield REnd (FRet :: k) (register_interrupt s n)
         else if negb in_int then Yield REnd (FRet :: k) s
@@ -334,6 +340,7 @@ Section Prog.
         Yield REnd (FRet :: k) (register_interrupt s4 n)
         | _ => Go k s          (* this frame only exists for alarm nodes *)
         end
+    | FInjAfter n => Yield REnd (FRet :: k) (mark_completed (complete s n) n)
     end.
 
   (* an exception unwinds to the nearest enclosing visit, which records the failure and returns normally *)
